@@ -45,6 +45,8 @@ func runC12(c *core.Ctx) {
 	ruleNotFound(c)
 	c.Doc("C12.removal", "removal requests delete exactly the id they name", 4)
 	ruleRemovalKeys(c)
+	c.Doc("C06.state-guarded", "the authentication state of a connection is read and written under a mutex of its channel: a concurrent map read and write aborts the server for everyone — rule shared with C06", 2)
+	ruleAuthStateGuarded(c, lc, "C06.state-guarded")
 	c.Doc("C12.no-panic", "no explicit panic on the message-receiving path", 1)
 	ruleNoPanicInReceive(c)
 	c.Doc("C12.negative-length", "no wire integer that went through a signed type sizes an allocation without a lower-bound check (the panic kills the server for everyone)", 10)
